@@ -13,6 +13,7 @@ Currently these are:
 
 from __future__ import annotations
 import logging
+from typing import Optional
 
 from ..attackgraph import AttackGraph
 from ..node import AttackGraphNode
@@ -49,12 +50,24 @@ def _is_necessary_for_children(node: AttackGraphNode) -> bool:
     that have a TTC probability distribution associated with them always
     count as necessary for their children.
     """
-    if node.ttc and 'name' in node.ttc:
-        if node.ttc['name'] not in ['Enabled', 'Disabled']:
-            # TODO: Evaluate this more carefully, how do we want to have TTCs
-            # impact necessity and viability.
-            return True
+    if _is_ttc_distribution(node.ttc):
+        # TODO: Evaluate this more carefully, how do we want to have TTCs
+        # impact necessity and viability.
+        return True
     return node.is_necessary
+
+def _is_ttc_distribution(ttc: Optional[dict]) -> bool:
+    """
+    Return True if the TTC expression given contains a probability
+    distribution, either on its own or as an operand of an arithmetic
+    expression, e.g. Exponential(0.1) + Exponential(0.2).
+    """
+    if not isinstance(ttc, dict):
+        return False
+    if 'name' in ttc:
+        return ttc['name'] not in ['Enabled', 'Disabled']
+    return _is_ttc_distribution(ttc.get('lhs')) or \
+        _is_ttc_distribution(ttc.get('rhs'))
 
 def propagate_necessity_from_node(node: AttackGraphNode) -> None:
     """
